@@ -20,4 +20,20 @@ PROPS = {
         "partial": ["tsim_refines_ev is assembled only up to collapse_realises_born_rule (abstract frame); the rows-as-cache invariant of the executable model is validated by correspondence, not yet proved"],
         "assumptions": ["semantics are invariant under order-preserving relabelling of qubits (Lean sees compact ids)"],
     },
+    "C12": {
+        "lean_modules": ["StimModel.Props.C12", "StimModel.Core.Pauli", "StimModel.Core.Local",
+                         "StimModel.Generated.GateThms", "StimModel.Generated.PauliRefThms"],
+        "areas": [
+            {"area": "gatetab", "n": 1, "extra": ["PauliRef"]},
+            {"area": "pauli", "n": {"quick": 3000, "thorough": 200000}},
+        ],
+        "rule": "every row of every extracted PauliStringRef do_/undo_ table (both input signs, 3 widths) + seeded arithmetic cases (product with power of i, "
+                "commutation, weight, text round trip, FlexPauliString with imaginary phases) on lengths {1..7,63..65,127..129,255..257,300,600} and propagation cases "
+                "(after/before through generated circuits with unitary gates, SPP, measurements, resets, MPP, feedback, sweep controls, noise; targets past the end of the "
+                "string); distinct = distinct case descriptions with at least one comparison",
+        "trusted_base": [],
+        "partial": ["word_parallel_counter_correct (the 2-bit SIMD counter) is validated by correspondence at every word-boundary length, not proved",
+                    "after_mul is proved for single-qubit gates; two-qubit gates use the same lifting lemma (conj2_mul_split) but the instantiation over the gate table is not yet assembled"],
+        "assumptions": ["propagation is invariant under order-preserving relabelling of the qubits the circuit touches; untouched positions are checked unchanged by the harness"],
+    },
 }
